@@ -16,6 +16,7 @@ pub fn run(mode: &str, a: &Args) -> i32 {
         "gen_merge" => generate(a, "e2e_merge", 1),
         "gen_dup" => generate(a, "e2e_dup", 2),
         "gen_typed" => generate(a, "e2e_typed", 3),
+        "gen_scalar" => generate_scalars(a),
         _ => 2,
     }
 }
@@ -410,7 +411,25 @@ fn generate(a: &Args, name: &str, family: u8) -> i32 {
             2 => {
                 let ty = match rng.below(3) { 0 => Ty::Any, 1 => Ty::Map(Box::new(Ty::Any), Box::new(Ty::Any)),
                     _ => Ty::Struct(vec![("a", Ty::Option(Box::new(Ty::Any))), ("b", Ty::Option(Box::new(Ty::Any)))], false) };
-                (ty, dup_doc(&mut rng))
+                let doc = match i % 5 {
+                    // a mapping with many distinct keys and a repeat of the j-th one (set-implementation boundaries)
+                    0 => {
+                        let nkeys = 2 + rng.below(14);
+                        let j = rng.below(nkeys);
+                        let mut entries: Vec<(GNode, GNode)> = (0..nkeys).map(|k| (sc(&format!("k{k}")), sc(&k.to_string()))).collect();
+                        let at = j + 1 + rng.below(nkeys - j);
+                        entries.insert(at, (sc(&format!("k{j}")), sc("again")));
+                        GNode::Map { anchor: None, tag: None, entries, flow: rng.chance(1, 2) }
+                    }
+                    // an unknown struct field (ignored value) that contains a mapping with a repeated key
+                    1 => GNode::Map { anchor: None, tag: None, flow: false, entries: vec![
+                        (sc("a"), sc("1")),
+                        (sc("zz_unknown"), if rng.chance(1, 2) { dup_doc(&mut rng) } else { GNode::Seq { anchor: None, tag: None, flow: true, items: vec![dup_doc(&mut rng)] } }),
+                        (sc("b"), sc("2")),
+                    ] },
+                    _ => dup_doc(&mut rng),
+                };
+                (ty, doc)
             }
             _ => {
                 let ty = if family == 0 && i % 3 == 0 { Ty::Any } else { gen_ty(&mut rng, 0) };
@@ -446,6 +465,65 @@ fn generate(a: &Args, name: &str, family: u8) -> i32 {
     sink.finish(&a.out, name, serde_json::json!({
         "distinct_nontrivial": nt,
         "rule": "generated (type description, document, options) triples: the document is generated FROM the type (mostly matching), then perturbed half of the time (surplus/missing elements, wrong kind, unknown field, duplicate entry, null for a container, tags, anchors+aliases, entries moved into merge sources); families: general (also untyped target and multi-document/iterator variants), merge-key documents (inline maps, aliases, sequences, nested merges, colliding own keys, invalid merge values, quoted/tagged <<), duplicate-key documents (scalar/sequence/mapping keys, quoted vs plain, tagged, null-like) x 3 policies. Implementation = with_deserializer_from_str_with_options / from_multiple_with_options / read_with_options with a DeserializeSeed that issues the derive calls; model = pump + typed deserializer + entry protocol on the real parser's items. Compared: value tree or error kind + location (+ definition location for alias errors). Non-trivial = distinct (type, item stream) with more than 4 events.",
+    }));
+    0
+}
+
+
+/// C06 end to end: one scalar (token x style x tag) as the root or as a mapping value, into every scalar-like
+/// target under option vectors — the deserializer-level interpretation (`deserialize_*`, `deserialize_any`).
+fn generate_scalars(a: &Args) -> i32 {
+    let mut rng = Rng::new(a.seed ^ 0x5ca1a5);
+    let mut sink = Sink::new(&a.out, "e2e_scalar");
+    let tokens: Vec<&str> = vec![
+        "", "~", "null", "Null", "NULL", "nul", "true", "True", "TRUE", "false", "yes", "No", "on", "OFF", "y", "n", "Y",
+        "0", "-0", "+0", "1", "-1", "127", "128", "-128", "-129", "255", "256", "65535", "65536", "2147483647", "2147483648", "-2147483648",
+        "9223372036854775807", "9223372036854775808", "-9223372036854775808", "18446744073709551615", "18446744073709551616",
+        "170141183460469231731687303715884105727", "340282366920938463463374607431768211455", "340282366920938463463374607431768211456",
+        "0x1F", "0X1f", "0o17", "0b101", "007", "00", "0o8", "0x", "1_000", "_1", "1_", "+5", "- 5", "0x-1", "-0x80", "0o400000000000000000000000000000000000000000000",
+        "1.5", "-1.5", "1.", ".5", "1e3", "1E-3", "1e", ".inf", "-.INF", "+.Inf", ".nan", ".NaN", "inf", "infinity", "nan", "1.00000005960464477540", "1e400", "4.9e-324",
+        "a", "é", "ab", "hello world", "<<", "-", "123abc", "AQID", "aGVsbG8=", "AB==", "/w==", " 12 ", "12 ", "\u{a0}12",
+    ];
+    let tags = ["", "!!str ", "!!int ", "!!float ", "!!bool ", "!!null ", "!!binary ", "! ", "!custom ", "!!timestamp "];
+    let targets = vec![
+        Ty::Bool, Ty::Int(true, 8), Ty::Int(true, 32), Ty::Int(true, 64), Ty::Int(true, 128), Ty::Int(false, 8), Ty::Int(false, 64), Ty::Int(false, 128),
+        Ty::Float(64), Ty::Float(32), Ty::Char, Ty::Str, Ty::Unit, Ty::Bytes, Ty::Any, Ty::Option(Box::new(Ty::Str)), Ty::Option(Box::new(Ty::Int(true, 32))),
+        Ty::Seq(Box::new(Ty::Int(false, 8))), Ty::Enum("E", vec![("a", VTy::Unit), ("true", VTy::Unit), ("1", VTy::Unit)]),
+    ];
+    let per = if a.thorough { 24 } else { 3 };
+    let mut distinct = std::collections::BTreeSet::new();
+    for tok in &tokens {
+        let tok = tok.replace("\\u{a0}", "\u{a0}");
+        for style in 0..5u8 {
+            for tag in tags {
+                let body = match style {
+                    0 => tok.clone(),
+                    1 => format!("'{}'", tok.replace('\'', "''")),
+                    2 => format!("\"{}\"", tok.replace('\\', "\\\\").replace('"', "\\\"")),
+                    3 => format!("|-\n  {}\n", tok),
+                    _ => format!(">-\n  {}\n", tok),
+                };
+                if style >= 3 && (tok.is_empty() || tok.starts_with(' ')) { continue; }
+                let text = if rng.chance(1, 2) { format!("--- {tag}{body}\n") } else { format!("k: {tag}{body}\n") };
+                let in_map = text.starts_with("k:");
+                let (items, nev, _) = crate::pump::items_tokens(&text);
+                for _ in 0..per {
+                    let t0 = rng.pick(&targets).clone();
+                    let ty = if in_map { Ty::Struct(vec![("k", t0)], false) } else { t0 };
+                    let cfg = Cfg { dup: 0, legacy_octal: rng.chance(1, 2), strict_bool: rng.chance(1, 2), ignore_binary: rng.chance(1, 2), no_schema: rng.chance(1, 2),
+                                    budget: None, limits: AliasLimits::default() };
+                    let ans = run_single(&text, &ty, &cfg);
+                    if distinct.insert((text.clone(), ty.tokens())) && nev > 2 && ans.starts_with("ok") { sink.count("distinct_nontrivial"); }
+                    sink.count(&format!("scalar.{}", ans.split(' ').take(2).collect::<Vec<_>>().join(".").chars().take(40).collect::<String>()));
+                    sink.case(&format!("e2e single {} {} | {}", cfg.tokens(false), ty.tokens(), items), &ans);
+                }
+            }
+        }
+    }
+    let nt = sink.stats.get("distinct_nontrivial").copied().unwrap_or(0);
+    sink.finish(&a.out, "e2e_scalar", serde_json::json!({
+        "distinct_nontrivial": nt,
+        "rule": "deserializer-level scalar interpretation: ~90 tokens (null/bool/int boundaries in every radix/float/look-alikes/base64) x 5 styles (plain, single, double, literal, folded) x 10 tags, as document root or mapping value, into random targets out of 19 (bool, ints of 5 widths, floats, char, String, unit, bytes, untyped, options, Vec<u8>, enum) under random option vectors (legacy_octal, strict_booleans, ignore_binary_tag_for_string, no_schema): implementation vs model (value or error kind + location) and vs the specification. Non-trivial = distinct (text, target) accepted.",
     }));
     0
 }
